@@ -659,7 +659,8 @@ def qualifier_for(rng, qd, value=None):
     import pywbem
     if value is None:
         value = gen_value(rng, qd.type, qd.is_array)
-    return pywbem.CIMQualifier(qd.name, value, type=qd.type, overridable=qd.overridable, tosubclass=qd.tosubclass,
+    name = recase(_RECASE, qd.name) if _RECASE is not None and _RECASE.random() < 0.5 else qd.name
+    return pywbem.CIMQualifier(name, value, type=qd.type, overridable=qd.overridable, tosubclass=qd.tosubclass,
                                translatable=qd.translatable, toinstance=qd.toinstance)
 
 
@@ -1164,18 +1165,96 @@ SESSION_QNAMES = ['Qa', 'Qb', 'Qc']
 SESSION_CNAMES = ['S_a', 'S_b', 'S_c']
 
 
+_RECASE = None      # rng while a session is generated: qualifier names are then spelled in another case
+
+
+def recase(rng, name):
+    """another spelling of a case-insensitive CIM name"""
+    for _ in range(4):
+        n = rng.choice([name.lower(), name.upper(), name.swapcase(), name.capitalize(),
+                        ''.join(c.upper() if rng.random() < 0.5 else c.lower() for c in name)])
+        if n != name:
+            return n
+    return name
+
+
+def session_prelude():
+    """declarations a session may start with (plain round-trip steps)"""
+    import pywbem
+    return [KEY_DECL(),
+            pywbem.CIMQualifierDeclaration('EmbeddedInstance', 'string', value=None,
+                                           scopes={'PROPERTY': True, 'METHOD': True, 'PARAMETER': True}),
+            pywbem.CIMQualifierDeclaration('EmbeddedObject', 'boolean', value=False,
+                                           scopes={'PROPERTY': True, 'METHOD': True, 'PARAMETER': True},
+                                           overridable=False, tosubclass=True)]
+
+
+def gen_bad_step(rng, cur_c, emb_of, ml):
+    """a step whose MOF must be REJECTED (missing dependency or syntax error).  It is tomof() output for an
+    object whose needed declarations are not in the repository, or truncated tomof() output.  Nothing is required
+    of it except that the compiler is still usable afterwards: the later good steps are judged as usual."""
+    import pywbem
+    k = rng.choice(['embedded_unknown_class', 'embedded_unknown_class', 'instance_unknown_class',
+                    'undeclared_qualifier', 'unknown_superclass', 'syntax_error'])
+    if k == 'embedded_unknown_class':
+        cands = [c for c in cur_c.values() if not c.superclass and
+                 any('EmbeddedInstance' in p.qualifiers or 'EmbeddedObject' in p.qualifiers
+                     for p in c.properties.values())]
+        if cands:
+            cls = rng.choice(cands)
+            ep = rng.choice([p for p in cls.properties.values()
+                             if 'EmbeddedInstance' in p.qualifiers or 'EmbeddedObject' in p.qualifiers])
+            bad = pywbem.CIMInstance('No_Such_Class', properties=[pywbem.CIMProperty('x', pywbem.Uint8(1))])
+            p = ep.copy()
+            p.qualifiers = type(ep.qualifiers)()
+            p.value = [bad] if ep.is_array else bad
+            p.embedded_object = 'instance' if 'EmbeddedInstance' in ep.qualifiers else 'object'
+            obj = pywbem.CIMInstance(recase(rng, cls.classname), properties=[p])
+            return {'kind': 'bad', 'why': k, 'maxline': ml, 'obj': obj, 'redeclared': False}
+        k = 'instance_unknown_class'
+    if k == 'instance_unknown_class':
+        obj = pywbem.CIMInstance('No_Such_Class', properties=[pywbem.CIMProperty('x', pywbem.Uint8(1))])
+    elif k == 'undeclared_qualifier':
+        obj = pywbem.CIMClass('X_bad', qualifiers=[pywbem.CIMQualifier('NoSuchQual', 'v', type='string')])
+    elif k == 'unknown_superclass':
+        obj = pywbem.CIMClass('X_bad', superclass='No_Such_Base')
+    else:
+        good = pywbem.CIMClass('X_bad', properties=[pywbem.CIMProperty('p', gen_text(rng) + 'x', type='string')])
+        t = good.tomof(ml)
+        obj = t[:max(len(t) - rng.randint(4, 12), 8)]
+    return {'kind': 'bad', 'why': k, 'maxline': ml, 'obj': obj, 'redeclared': False}
+
+
 def gen_session(rng):
     """a schema-maintenance session on ONE compiler and ONE repository: qualifier declarations and classes are
     declared, used, RE-declared with another type / array shape / default / flavors / scopes, and used again;
-    every step is a tomof() -> compile round trip.  Returns a list of steps (kind, maxline, object); the expected
-    object of a step is built from the declarations that are current at that step."""
-    cur_q, cur_c = {}, {}
+    cross-references (superclass, reference class, EmbeddedInstance class, creation class of instances and of
+    embedded instances, qualifier names) are spelled in ANOTHER CASE than the declaration; steps that the
+    compiler must reject (missing dependency, syntax error) are interleaved.  Every good step is a
+    tomof() -> compile round trip.  Returns a list of steps (kind, maxline, object); the expected object of a
+    step is built from the declarations that are current at that step."""
+    global _RECASE
+    _RECASE = rng
+    try:
+        return _gen_session(rng)
+    finally:
+        _RECASE = None
+
+
+def _gen_session(rng):
+    cur_q, cur_c, emb_of = {}, {}, {}
     steps = []
+    if rng.random() < 0.6:
+        for qd in session_prelude():
+            cur_q[qd.name] = norm_qualdecl(qd)
+            steps.append({'kind': 'qualifierdecl', 'maxline': 80, 'obj': qd, 'redeclared': False})
     nsteps = rng.randint(4, 10)
     for i in range(nsteps):
         r = rng.random()
         ml = rng.choice([60, 80, 80, 100, rng.randint(50, 120)])
-        if r < 0.40 or not cur_q:
+        if r < 0.12 and steps:
+            steps.append(gen_bad_step(rng, cur_c, emb_of, ml))
+        elif r < 0.42 or not [q for q in cur_q if q in SESSION_QNAMES]:
             name = rng.choice(SESSION_QNAMES)
             qd = gen_qualdecl(rng, name=name)
             # usable everywhere, so that the following classes can carry it
@@ -1183,14 +1262,18 @@ def gen_session(rng):
             redecl = name in cur_q
             cur_q[name] = norm_qualdecl(qd)
             steps.append({'kind': 'qualifierdecl', 'maxline': ml, 'obj': qd, 'redeclared': redecl})
-        elif r < 0.80 or not cur_c:
+        elif r < 0.78 or not cur_c:
             name = rng.choice(SESSION_CNAMES)
             others = [c for c in cur_c if c != name]
-            sup = rng.choice([None] + others) if others else None
-            cls = gen_class(rng, list(cur_q.values()), name, superclass=sup, refclasses=others)
+            plain = [c for c in others if not cur_c[c].superclass]
+            sup = recase(rng, rng.choice(others)) if others and rng.random() < 0.6 else None
+            emb = rng.choice(plain) if plain and rng.random() < 0.7 else None
+            cls = gen_class(rng, list(cur_q.values()), name, superclass=sup,
+                            refclasses=[recase(rng, o) for o in others],
+                            embed=recase(rng, emb) if emb else None)
             # make sure the current declarations are really used
             for q in list(cur_q.values()):
-                if rng.random() < 0.6 and q.name not in cls.qualifiers:
+                if q.name in SESSION_QNAMES and rng.random() < 0.6 and q.name not in cls.qualifiers:
                     cls.qualifiers[q.name] = qualifier_for(rng, q)
             redecl = name in cur_c
             # a class must not be re-declared under a class that derives from it; keep it simple: drop dependants
@@ -1199,15 +1282,24 @@ def gen_session(rng):
                     if cur_c[c].superclass and cur_c[c].superclass.lower() == name.lower():
                         del cur_c[c]
             cur_c[name] = cls
-            steps.append({'kind': 'class', 'maxline': ml, 'obj': cls, 'redeclared': redecl,
-                          'uses_redeclared': any(st['kind'] == 'qualifierdecl' and st['redeclared'] for st in steps)})
+            emb_of[name] = emb
+            steps.append({'kind': 'class', 'maxline': ml, 'obj': cls, 'redeclared': redecl})
         else:
-            cls = cur_c[rng.choice(sorted(cur_c))]
+            name = rng.choice(sorted(cur_c))
+            cls = cur_c[name]
             if cls.superclass:
                 continue        # GetClass(LocalOnly=False) merges inherited properties into the stored class
-            inst = gen_instance(rng, cls)
+            ecls = cur_c.get(emb_of.get(name)) if emb_of.get(name) else None
+            if ecls is not None and ecls.superclass:
+                ecls = None
+            inst = gen_instance(rng, cls, ecls)
             if inst is None:
                 continue
+            inst.classname = recase(rng, inst.classname)
+            for p in inst.properties.values():
+                for v in (p.value if isinstance(p.value, list) else [p.value]):
+                    if hasattr(v, 'classname') and hasattr(v, 'properties'):
+                        v.classname = recase(rng, v.classname)
             steps.append({'kind': 'instance', 'maxline': ml, 'obj': inst, 'redeclared': False})
     return steps
 
@@ -1238,6 +1330,16 @@ def run_session(run, steps, record=True):
     comp = MOFCompiler(conn, verbose=False, log_func=None)
     for i, st in enumerate(steps):
         obj, kind = st['obj'], st['kind']
+        if kind == 'bad':
+            # a step the compiler must reject; only its after-effects on later good steps are judged
+            try:
+                mof = obj if isinstance(obj, str) else obj.tomof(st['maxline'])
+                err = session_compile(comp, mof)
+                run.count('session:bad:%s:%s' % (st.get('why'), (err or {}).get('exc', 'accepted')))
+            except Exception as e:  # noqa
+                run.count('session:bad:%s:tomof:%s' % (st.get('why'), type(e).__name__))
+            continue
+        n_inst = len(conn.instances.get(NS, []))
         try:
             mof = obj.tomof(st['maxline'])
             r = {'mof': mof}
@@ -1260,11 +1362,14 @@ def run_session(run, steps, record=True):
                 r['compiled'] = conn.classes.get(NS, {}).get(obj.classname)
             else:
                 insts = conn.instances.get(NS, [])
-                r['compiled'] = insts[-1] if insts else None
+                # the instance must actually have arrived in the repository (one more than before)
+                r['compiled'] = insts[-1] if len(insts) == n_inst + 1 else None
         case = {'op': 'session', 'steps': [{'kind': x['kind'], 'maxline': x['maxline'], 'obj': obj_repr(x['obj']),
-                                            'redeclared': x.get('redeclared', False)} for x in steps[:i + 1]]}
+                                            'redeclared': x.get('redeclared', False), 'why': x.get('why')}
+                                           for x in steps[:i + 1]]}
         extra = {'redeclared': bool(st.get('redeclared')), 'after_redeclaration':
-                 any(x['kind'] != 'instance' and x.get('redeclared') for x in steps[:i])}
+                 any(x['kind'] != 'instance' and x.get('redeclared') for x in steps[:i]),
+                 'after_rejected_step': any(x['kind'] == 'bad' for x in steps[:i])}
         nv = judge(run, kind, obj, r, case, 'session', extra)
         if nv and any(not is_known(v['sig']) for v in run.violations[-nv:]):
             return i + 1, i
@@ -1296,7 +1401,8 @@ def stage3(run):
                   'first': obj_repr(steps[0]['obj'])[:64]},
                  nontrivial=any(x.get('redeclared') for x in steps[:done]))
         for x in steps[:done]:
-            run.count('session:%s%s' % (x['kind'], ':redeclared' if x.get('redeclared') else ''))
+            if x['kind'] != 'bad':
+                run.count('session:%s%s' % (x['kind'], ':redeclared' if x.get('redeclared') else ''))
         if bad is not None:
             # shrink: drop earlier steps as long as the last step still violates the property
             vio = [v for v in run.violations[n0:] if not is_known(v['sig'])]
@@ -1436,10 +1542,11 @@ def replay(payload):
             r.violate({'stage': 'string', 'kind': 'value_differs', 'where': 'value_tomof_array'}, case, shown)
     elif case.get('op') == 'session':
         steps = [{'kind': x['kind'], 'maxline': x['maxline'], 'obj': obj_load(x['obj']),
-                  'redeclared': x.get('redeclared', False)} for x in case['steps']]
+                  'redeclared': x.get('redeclared', False), 'why': x.get('why')} for x in case['steps']]
         run_session(r, steps)
         r.violations[:] = [v for v in r.violations if not is_known(v['sig'])]
-        shown = {'steps': [(x['kind'], x['obj'].tomof(x['maxline'])) for x in steps][-4:],
+        shown = {'steps': [(x['kind'], x['obj'] if isinstance(x['obj'], str) else x['obj'].tomof(x['maxline']))
+                           for x in steps][-4:],
                  'observed': (r.violations[0]['observed'] if r.violations else None)}
     elif case.get('op') == 'decl':
         obj = obj_load(case['obj'])
